@@ -22,7 +22,8 @@ assert wt.exists(), r.stderr
 out = V / "seeded" / sid
 out.mkdir(parents=True, exist_ok=True)
 for f in ("patch.diff", "demo.py", "meta.json"):
-    shutil.copy(src / f, out / f)
+    if (src / f).resolve() != (out / f).resolve():
+        shutil.copy(src / f, out / f)
 meta = json.load(open(out / "meta.json"))
 env = f"cd {wt} && PYTHONPATH={wt}"
 demo = "demo.py"
